@@ -376,9 +376,18 @@ macro_rules! system {
             use $crate::typenum::Integer;
             use $crate::{Conversion, ConversionFactor};
 
-            (v.conversion() $(* Ur::$name::coefficient().powi(D::$symbol::to_i32())
-                    / Ul::$name::coefficient().powi(D::$symbol::to_i32()))+)
-                .value()
+            let v = v.conversion();
+            let r = V::coefficient() $(* Ur::$name::coefficient().powi(D::$symbol::to_i32()))+;
+            let l = V::coefficient() $(* Ul::$name::coefficient().powi(D::$symbol::to_i32()))+;
+
+            // Reduce the two base unit factors to a single ratio before scaling the value so
+            // that identical base units convert exactly (`r / l == 1`).
+            if r >= l {
+                (v * (r / l)).value()
+            }
+            else {
+                (v / (l / r)).value()
+            }
         }}
 
         #[doc(hidden)]
